@@ -241,6 +241,10 @@ func (b *B) Bin(op string, x, y *Term) *Term {
 		if x == y {
 			return b.Const(w, 0)
 		}
+		// (t + c) - t  =  c
+		if x.Op == "bvadd" && isC(x.Args[1]) && x.Args[0] == y {
+			return x.Args[1]
+		}
 	case "bvand":
 		if isC(x) && !isC(y) {
 			x, y = y, x
@@ -299,6 +303,21 @@ func (b *B) Cmp(op string, x, y *Term) *Term {
 	if x.S != y.S {
 		panic(fmt.Sprintf("sort mismatch in %s: %s vs %s", op, x.S, y.S))
 	}
+	// normal form: only bvult / bvslt (so that facts and hash-consing meet)
+	switch op {
+	case "bvuge":
+		return b.Not(b.Cmp("bvult", x, y))
+	case "bvugt":
+		return b.Cmp("bvult", y, x)
+	case "bvule":
+		return b.Not(b.Cmp("bvult", y, x))
+	case "bvsge":
+		return b.Not(b.Cmp("bvslt", x, y))
+	case "bvsgt":
+		return b.Cmp("bvslt", y, x)
+	case "bvsle":
+		return b.Not(b.Cmp("bvslt", y, x))
+	}
 	if isC(x) && isC(y) {
 		w := x.S.W
 		var r bool
@@ -325,19 +344,19 @@ func (b *B) Cmp(op string, x, y *Term) *Term {
 		return b.Bool(r)
 	}
 	if x == y {
-		switch op {
-		case "bvule", "bvuge", "bvsle", "bvsge":
+		return b.fls
+	}
+	if op == "bvult" {
+		// zero-extended value against a constant that does not fit
+		if isC(y) && x.Op == "zext" && y.Val > mask(x.Args[0].S.W) {
 			return b.tru
-		default:
+		}
+		if isC(y) && y.Val == 0 {
 			return b.fls
 		}
-	}
-	// zero-extended value against a constant that does not fit
-	if op == "bvult" && isC(y) && x.Op == "zext" && y.Val > mask(x.Args[0].S.W) {
-		return b.tru
-	}
-	if op == "bvuge" && isC(y) && x.Op == "zext" && y.Val > mask(x.Args[0].S.W) {
-		return b.fls
+		if isC(x) && x.Val == mask(x.S.W) {
+			return b.fls
+		}
 	}
 	return b.mk(&Term{Op: op, Args: []*Term{x, y}, S: BoolS()})
 }
